@@ -11,6 +11,13 @@
 (* free names from its own namespace and then from the module (never from  *)
 (* an enclosing class), attribute access on a class follows its bases.     *)
 (*                                                                         *)
+(* A module is marked as imported BEFORE its body runs (sys.modules), so an *)
+(* import cycle sees the partially initialised namespace, exactly as the   *)
+(* interpreter does; what a cyclic project binds therefore depends on the  *)
+(* module imported first (PyBindOrder).  err is set when the interpreter   *)
+(* would raise (ImportError: name not there yet; NameError: unbound base   *)
+(* or alias value): such an entry order is not a way to import the project.*)
+(*                                                                         *)
 (* Result: ns : scope key -> (name -> value),                              *)
 (*   scope key = <<i, 0>> module i | <<i, pc>> class opened at ops[pc],    *)
 (*   value     = [t |-> "mod", i, pc |-> 0] | [t |-> "obj", i, pc].        *)
@@ -76,6 +83,7 @@ ImportPath(s, pr, q, k) ==
 
 ExecMod(s, pr, i) ==
   IF i \in s.done THEN s
+  ELSE IF pr.mods[i].broken THEN [s EXCEPT !.done = @ \cup {i}, !.err = TRUE]       \* SyntaxError
   ELSE RunOps([s EXCEPT !.done = @ \cup {i}, !.ns = Put(@, ModKey(i), Empty)], pr, i, 1, <<ModKey(i)>>)
 
 RunOps(s, pr, i, pc, scopes) ==
@@ -93,7 +101,7 @@ RunOps(s, pr, i, pc, scopes) ==
                       THEN RunOps(Bind(s1, top, op.as, s1.ns[ModKey(mi)][op.orig]), pr, i, pc + 1, scopes)
                     ELSE IF sub # 0
                       THEN RunOps(Bind(ImportPath(s1, pr, Append(tq, op.orig), 1), top, op.as, ModVal(sub)), pr, i, pc + 1, scopes)
-                    ELSE RunOps(s1, pr, i, pc + 1, scopes)                       \* ImportError: not generated
+                    ELSE RunOps([s1 EXCEPT !.err = TRUE], pr, i, pc + 1, scopes)  \* ImportError (cycle: the name is not bound yet)
             [] op.k = "star" ->
                  LET tq == RelTarget(pr, i, op.lvl, op.m)
                      s1 == ImportPath(s, pr, tq, 1)
@@ -114,7 +122,8 @@ RunOps(s, pr, i, pc, scopes) ==
             [] op.k = "class" ->
                  LET key == <<i, pc>>
                      bvals == [b \in 1..Len(op.bases) |-> EvalDotted(s, scopes, op.bases[b])]
-                     s1 == [s EXCEPT !.ns = Put(@, key, Empty), !.bases = Put(@, key, bvals)]
+                     s1 == [s EXCEPT !.ns = Put(@, key, Empty), !.bases = Put(@, key, bvals),
+                                     !.err = @ \/ \E b \in 1..Len(bvals) : bvals[b].t = "none" /\ op.bases[b] \notin {<<"Exception">>, <<"object">>}]
                  IN RunOps(s1, pr, i, pc + 1, Append(scopes, key))
             [] op.k = "endclass" ->
                  \* the class name is bound in the enclosing namespace once its body has run
@@ -127,10 +136,14 @@ RunOps(s, pr, i, pc, scopes) ==
             [] op.k = "ivar" -> RunOps(Bind(s, top, "__init__", ObjVal(i, pc)), pr, i, pc + 1, scopes)
             [] op.k = "alias" ->
                  LET v == EvalDotted(s, scopes, op.v)
-                 IN RunOps(IF v.t = "none" THEN s ELSE Bind(s, top, op.n, v), pr, i, pc + 1, scopes)
+                 IN RunOps(IF v.t = "none" THEN [s EXCEPT !.err = TRUE] ELSE Bind(s, top, op.n, v), pr, i, pc + 1, scopes)
 
 \* import every module of the project (any order gives the same namespaces for the generated subset)
 RECURSIVE ImportAll(_, _, _)
 ImportAll(s, pr, i) == IF i > Len(pr.mods) THEN s ELSE ImportAll(ImportPath(s, pr, PathOf(pr, i), 1), pr, i + 1)
-PyBindAll(pr) == ImportAll([ns |-> Empty, bases |-> Empty, done |-> {}], pr, 1)
+PyBindAll(pr) == ImportAll([ns |-> Empty, bases |-> Empty, done |-> {}, err |-> FALSE], pr, 1)
+\* the same with a given entry order (cyclic projects: what is bound depends on the module imported first)
+RECURSIVE ImportOrder(_, _, _, _)
+ImportOrder(s, pr, order, k) == IF k > Len(order) THEN s ELSE ImportOrder(ImportPath(s, pr, PathOf(pr, order[k]), 1), pr, order, k + 1)
+PyBindOrder(pr, order) == ImportOrder([ns |-> Empty, bases |-> Empty, done |-> {}, err |-> FALSE], pr, order, 1)
 =============================================================================
